@@ -22,7 +22,7 @@ RULE = ('[edge families: metastable, banded 257..511 states (model skipped), ent
         'least one intermediate state on small chains, random pairs on larger ones, shuffled order; populations given '
         'or computed; ndarray and the 7 scipy *_matrix containers. The degenerate case "every state is a source or a '
         'sink" is never generated; cases whose exact normaliser sum(pi q (1-q)) is 0 (no intermediate state is '
-        'reactive) skip the population clauses and are counted. Non-trivial = some intermediate state carries flux; '
+        'reactive) are evaluated and reported under the open known finding reactive-populations-zero-normaliser. Non-trivial = some intermediate state carries flux; '
         'distinct by canonical input')
 ASSUMPTIONS = [
     'committors entering the fluxes satisfy C07 (checked here again through an independent numpy solve of the first-step equations)',
@@ -54,6 +54,7 @@ def oracle_committors(Tf, src, snk):
     return q
 
 
+ZERO_NORM_KEY = 'reactive-populations-zero-normaliser'
 REVERSIBLE_KINDS = ('rev', 'meta-rev', 'sticky', 'tiny-rev', 'pendant', 'rev-dyadic', 'banded', 'wells', 'lazy-wells')
 
 
@@ -222,7 +223,17 @@ def check_case(ctx, case, resp):
                                 % (outflow[src].sum(), inflow[snk].sum()), failing='total', **where)
                 # --- reactive populations
                 if zero_norm or (use_model and not model_ok):
-                    ctx.skip('reactive populations: exact normaliser sum(pi q (1-q)) is 0 (no reactive intermediate state)')
+                    # OPEN KNOWN FINDING: the exact normaliser sum(pi q (1-q)) is 0 (no intermediate state is reactive):
+                    # the property's words are evaluated all the same; the code returns 0/0
+                    ctx.tag('zero-normaliser call')
+                    bad = (not np.all(np.isfinite(rpop)) or np.any(rpop < -TIGHT) or abs(rpop.sum() - 1.0) > TOL
+                           or np.max(np.abs(rpop[src + snk])) > TIGHT)
+                    if bad:
+                        ctx.violation('reactive populations are not a probability vector (exact normaliser '
+                                      'sum(pi q+ q-) is 0: %s)' % ('non-finite output' if not np.all(np.isfinite(rpop))
+                                                                  else 'negative / not normalised'),
+                                      dict(case, failing='pop-zero-normaliser', got=[repr(float(x)) for x in rpop[:12]],
+                                           **where), key=ZERO_NORM_KEY)
                 elif not pop_ok:
                     ctx.skip('reactive populations: rounding allowance 2 dq / sum(pi q (1-q)) > 1 % (slowly mixing chain)')
                     if np.all(np.isfinite(rpop)) and abs(rpop.sum() - 1.0) > TOL:
